@@ -77,4 +77,12 @@ CLAIMS = {
                 'Needs GOEXPERIMENT=synctest (go1.24.2, offline).',
         'technique': 'Lean 4 invariant + well-founded measure proofs + schedule-controlled differential correspondence (synctest)',
     },
+    'C11': {
+        'text': 'Lean 4 theorems: the collected nodes are self (distance 0) or verified entries, all relay-safe, at most 32; any list passed through '
+                'truncateNodes with the code\'s budget gives a TALKRESP datagram <= 1280 bytes (RLP length arithmetic, tight at 1177); the asker keeps a '
+                'record only if signed, at a requested distance, first occurrence, UDP > 1024, relay-safe. The real handleFindNodes is checked against a '
+                'decidable relation (bucket shuffle) and the real processNodes by step equality.',
+        'note': TB + 'signature validity, log distance and address class are observations from go-ethereum; the size model of the discv5 packet is trusted (measured end to end under C08).',
+        'technique': 'Lean 4 decision-logic and arithmetic proofs + relation/step correspondence on real protocol instances',
+    },
 }
